@@ -5,7 +5,7 @@
    (true of every Ruler-compiled configuration of the generated rule table). *)
 From RecordUpdate Require Import RecordUpdate.
 From MD Require Import Base.Py Base.Str Base.Regex Base.Opt Model.Token Model.Utils Model.StateBlock Model.Helpers
-     Model.Url Model.Render Model.Block Lemmas.StrLemmas Lemmas.StrLemmas2 Lemmas.BlockLemmas Lemmas.BlockWF Lemmas.MapLemmas Lemmas.LfCount.
+     Model.Url Model.Render Model.Block Lemmas.StrLemmas Lemmas.StrLemmas2 Lemmas.BlockLemmas Lemmas.BlockWF Lemmas.MapLemmas Lemmas.LfCount Lemmas.ScanLemmas.
 From Coq Require Import ZifyBool.
 
 Local Arguments Z.eqb : simpl never.
@@ -81,8 +81,15 @@ Proof. intros H. rewrite H. exact (fun x => x). Qed.
 
 Definition pre (st : bstate) (sl el : Z) : Prop := 0 <= sl /\ sl < el /\ el <= b_lineMax st /\ b_line st = sl /\ TI st.
 
+Definition se (st st' : bstate) : Prop := b_src st' = b_src st /\ b_eMarks st' = b_eMarks st.
+Lemma fr_se st st' : fr st st' -> se st st'.
+Proof. intros H. rewrite H. split; reflexivity. Qed.
+Lemma se_refl st : se st st. Proof. split; reflexivity. Qed.
+Lemma se_trans a b c : se a b -> se b c -> se a c.
+Proof. unfold se. intros [A1 A2] [B1 B2]. split; congruence. Qed.
+
 Definition step_ok (st : bstate) (sl : Z) (st' : bstate) : Prop :=
-  b_lineMax st' = b_lineMax st /\ sl < b_line st' <= b_lineMax st /\ gm sl (b_line st') st st' /\ TI st'.
+  b_lineMax st' = b_lineMax st /\ sl < b_line st' <= b_lineMax st /\ gm sl (b_line st') st st' /\ TI st' /\ se st st'.
 
 (* the contract of one rule call *)
 Definition rule_c (st : bstate) (sl el : Z) (silent b : bool) (st' : bstate) : Prop :=
@@ -336,6 +343,95 @@ Proof.
     + exact SO.
 Qed.
 
+(* ---- list arithmetic ---- *)
+Lemma list_blanks_mono : forall fuel src pos mx offset bs p2 o2,
+  list_blanks fuel src pos mx offset bs = Ok (p2, o2) -> pos <= p2 /\ offset <= o2.
+Proof.
+  induction fuel as [|f IH]; intros src pos mx offset bs p2 o2 H; cbn [list_blanks] in H; [rfinish H; lia|].
+  destruct (negb (pos <? mx)); [rfinish H; lia|].
+  rstep H. destruct (x =? 9).
+  - apply IH in H. assert (0 <= (offset + bs) mod 4 < 4) by (apply Z.mod_pos_bound; lia). lia.
+  - destruct (x =? 32); [apply IH in H; lia | rfinish H; lia].
+Qed.
+
+Lemma ordered_digits_gt : forall fuel src start pos mx r,
+  ordered_digits fuel src start pos mx = Ok r -> r = -1 \/ pos < r.
+Proof.
+  induction fuel as [|f IH]; intros src start pos mx r H; cbn [ordered_digits] in H; [rfinish H; left; reflexivity|].
+  destruct (mx <=? pos); [rfinish H; left; reflexivity|].
+  rstep H. cbv zeta in H. destruct (is_digit x).
+  - destruct (10 <=? pos + 1 - start); [rfinish H; left; reflexivity|]. apply IH in H. lia.
+  - destruct ((x =? 41) || (x =? 46)); [|rfinish H; left; reflexivity].
+    destruct (pos + 1 <? mx); [|rfinish H; right; lia].
+    rstep H. rfinish H. destruct (is_space x0); [right; lia | left; reflexivity].
+Qed.
+
+Lemma skip_ordered_gt st line r ls : skip_ordered st line = Ok r -> line_start st line = Ok ls -> r = -1 \/ ls < r.
+Proof.
+  unfold skip_ordered. intros H L. rewrite L in H. cbn [bind] in H.
+  rstep H. destruct (x <=? ls + 1); [rfinish H; left; reflexivity|].
+  rstep H. destruct (negb (is_digit x0)); [rfinish H; left; reflexivity|].
+  apply ordered_digits_gt in H. lia.
+Qed.
+
+Lemma skip_bullet_gt st line r ls : skip_bullet st line = Ok r -> line_start st line = Ok ls -> r = -1 \/ ls < r.
+Proof.
+  unfold skip_bullet. intros H L. rewrite L in H. cbn [bind] in H.
+  rstep H. destruct (char_at (b_src st) ls) as [m|]; [|rfinish H; left; reflexivity].
+  destruct (negb ((m =? 42) || (m =? 45) || (m =? 43))); [rfinish H; left; reflexivity|].
+  destruct (ls + 1 <? x); [|rfinish H; right; lia].
+  rstep H. rfinish H. destruct (is_space x0); [right; lia | left; reflexivity].
+Qed.
+
+(* updates that keep every map and the first k tokens *)
+Definition mapeq_from (k : nat) (a b : list token) : Prop := firstn k a = firstn k b /\ map tmap a = map tmap b.
+Lemma mapeq_refl k l : mapeq_from k l l. Proof. split; reflexivity. Qed.
+Lemma mapeq_trans k a b c : mapeq_from k a b -> mapeq_from k b c -> mapeq_from k a c.
+Proof. intros [A1 A2] [B1 B2]. split; congruence. Qed.
+
+Lemma update_nth_mapeq (f : token -> token) (K : forall t, tmap (f t) = tmap t) : forall n k l, (k <= n)%nat ->
+  mapeq_from k l (update_nth_tok n f l).
+Proof.
+  unfold update_nth_tok. induction n as [|n IH]; intros k l Hk.
+  - assert (k = O) by lia. subst k. destruct l as [|x l]; [apply mapeq_refl|].
+    split; [reflexivity|]. cbn [map]. rewrite K. reflexivity.
+  - destruct l as [|x l]; [apply mapeq_refl|].
+    destruct k as [|k].
+    + destruct (IH O l ltac:(lia)) as [_ F]. split; [reflexivity|]. cbn [map]. f_equal. exact F.
+    + destruct (IH k l ltac:(lia)) as [P F]. split; [cbn [firstn]; f_equal; exact P|]. cbn [map]. f_equal. exact F.
+Qed.
+
+Lemma mark_tight_mapeq k : forall fuel tokens i length level, (k <= Z.to_nat i)%nat -> 0 <= i ->
+  mapeq_from k tokens (mark_tight fuel tokens i length level).
+Proof.
+  induction fuel as [|f IH]; intros tokens i length level Hk Hi; cbn [mark_tight]; [apply mapeq_refl|].
+  destruct (negb (i <? length)); [apply mapeq_refl|].
+  destruct (nth_error tokens (Z.to_nat i)) as [t|]; [|apply mapeq_refl].
+  destruct ((tlevel t =? level) && str_eqb (ttype t) [112; 97; 114; 97; 103; 114; 97; 112; 104; 95; 111; 112; 101; 110]).
+  - eapply mapeq_trans; [|apply IH; lia].
+    eapply mapeq_trans; apply update_nth_mapeq; try lia; intros x; reflexivity.
+  - apply IH; lia.
+Qed.
+
+Lemma Forall_map_in_tmap lo hi : forall a b, map tmap a = map tmap b -> Forall (map_in lo hi) a -> Forall (map_in lo hi) b.
+Proof.
+  induction a as [|x a IH]; intros b E F; destruct b as [|y b]; try discriminate E; [constructor|].
+  cbn [map] in E. injection E as E1 E2. inversion F; subst. constructor; [|apply IH; assumption].
+  unfold map_in in *. rewrite <- E1. assumption.
+Qed.
+
+Lemma gm_reshape lo hi (pre seg X : list token) :
+  Forall (map_in lo hi) seg -> mapeq_from (length pre) (pre ++ seg) X ->
+  exists seg', X = pre ++ seg' /\ Forall (map_in lo hi) seg'.
+Proof.
+  intros F [P M]. rewrite firstn_app, Nat.sub_diag, firstn_all in P. cbn [firstn] in P. rewrite app_nil_r in P.
+  exists (skipn (length pre) X). split.
+  - rewrite <- (firstn_skipn (length pre) X) at 1. rewrite <- P. reflexivity.
+  - apply (Forall_map_in_tmap lo hi seg); [|exact F].
+    assert (E : map tmap (skipn (length pre) (pre ++ seg)) = map tmap (skipn (length pre) X)) by (rewrite <- !skipn_map, M; reflexivity).
+    rewrite skipn_app, Nat.sub_diag, skipn_all in E. cbn [skipn app] in E. exact E.
+Qed.
+
 Section Rules.
 Context (cfg : bcfg) (rf cf : str -> str).
 
@@ -346,7 +442,7 @@ Lemma r_hr_c st sl el silent b st' : r_hr cfg st sl el silent = Ok (b, st') -> r
 Proof.
   unfold r_hr. intros H. repeat rstep H; try discriminate H. all: rfinish H; try leaf_fail.
   unfold rule_c. cbn [andb negb]. intros (P0 & P1 & P2 & P3 & HTI).
-  split; [reflexivity|]. split; [cbn; lia|]. split; [|exact HTI]. apply gm_push1; [reflexivity|]. unfold map_in. cbn. lia.
+  split; [reflexivity|]. split; [cbn; lia|]. split; [|exact (conj HTI (se_refl _))]. apply gm_push1; [reflexivity|]. unfold map_in. cbn. lia.
 Qed.
 
 Lemma r_code_c st sl el b st' : r_code cfg st sl el false = Ok (b, st') -> rule_c st sl el false b st'.
@@ -356,7 +452,7 @@ Proof.
   match type of H with bind ?m _ = _ => destruct m as [last|?|] eqn:CS end; cbn [bind] in H; try discriminate H.
   apply code_scan_bounds in CS; [|lia]. destruct CS as [C1 C2].
   rstep H. rfinish H. unfold rule_c. cbn [andb negb]. intros (P0 & P1 & P2 & P3 & HTI). specialize (C2 ltac:(lia)).
-  split; [reflexivity|]. split; [cbn; lia|]. split; [|exact HTI]. apply gm_push1; [reflexivity|]. unfold map_in. cbn. lia.
+  split; [reflexivity|]. split; [cbn; lia|]. split; [|exact (conj HTI (se_refl _))]. apply gm_push1; [reflexivity|]. unfold map_in. cbn. lia.
 Qed.
 
 Lemma r_fence_c st sl el silent b st' : r_fence cfg st sl el silent = Ok (b, st') -> rule_c st sl el silent b st'.
@@ -369,14 +465,14 @@ Proof.
   apply fence_scan_bounds in FS. destruct FS as (_ & F1 & F2 & F3). specialize (F1 ltac:(discriminate)).
   do 2 rstep H. rfinish H. unfold rule_c. cbn [andb negb]. intros (P0 & P1 & P2 & P3 & HTI).
   specialize (F2 P1). destruct have; [specialize (F3 eq_refl)|clear F3].
-  all: split; [reflexivity|]; (split; [cbn; lia|]); (split; [|exact HTI]); (apply gm_push1; [reflexivity|]); unfold map_in; cbn; lia.
+  all: split; [reflexivity|]; (split; [cbn; lia|]); (split; [|exact (conj HTI (se_refl _))]); (apply gm_push1; [reflexivity|]); unfold map_in; cbn; lia.
 Qed.
 
 Lemma r_heading_c st sl el silent b st' : r_heading cfg st sl el silent = Ok (b, st') -> rule_c st sl el silent b st'.
 Proof.
   unfold r_heading. intros H. repeat rstep H; try discriminate H. all: rfinish H; try leaf_fail.
   all: unfold rule_c; cbn [andb negb]; intros (P0 & P1 & P2 & P3 & HTI).
-  all: split; [reflexivity|]; (split; [cbn; lia|]); (split; [|exact HTI]).
+  all: split; [reflexivity|]; (split; [cbn; lia|]); (split; [|exact (conj HTI (se_refl _))]).
   all: eexists; (split; [rewrite !bpush_tokens, <- !app_assoc; cbn [app]; reflexivity|]).
   all: repeat constructor; unfold map_in; cbn; lia.
 Qed.
@@ -392,16 +488,16 @@ Proof.
   rstep H. rfinish H. unfold rule_c. cbn [andb negb]. intros (P0 & P1 & P2 & P3 & HTI).
   assert (B : sl + 1 <= nl /\ nl <= el).
   { destruct (test closer (slice (b_src st) x x0)); [rfinish NL; lia|]. apply html_scan_bounds in NL. lia. }
-  split; [reflexivity|]. split; [cbn; lia|]. split; [|exact HTI]. apply gm_push1; [reflexivity|]. unfold map_in. cbn. lia.
+  split; [reflexivity|]. split; [cbn; lia|]. split; [|exact (conj HTI (se_refl _))]. apply gm_push1; [reflexivity|]. unfold map_in. cbn. lia.
 Qed.
 
 (* ---- the paragraph-like rules ---- *)
-Definition term_fr (term : term_t) : Prop := forall ch s a b r s', term ch s a b = Ok (r, s') -> fr s s'.
+Definition term_fr (term : term_t) : Prop := forall ch s a b r s', ch <> [] -> term ch s a b = Ok (r, s') -> fr s s'.
 
-Lemma para_scan_fr term (T : term_fr term) : forall fuel chain st nl el cu r u st',
+Lemma para_scan_fr term (T : term_fr term) chain (CN : chain <> []) : forall fuel st nl el cu r u st',
   para_scan fuel term chain st nl el cu = Ok (r, u, st') -> fr st st'.
 Proof.
-  induction fuel as [|f IH]; intros chain st nl el cu r u st' H; [discriminate H|].
+  induction fuel as [|f IH]; intros st nl el cu r u st' H; [discriminate H|].
   cbn [para_scan] in H.
   destruct (negb (nl <? el)); [rfinish H; apply fr_refl|].
   destruct (is_empty st nl) as [e|?|]; cbn [bind] in H; try discriminate H.
@@ -412,7 +508,7 @@ Proof.
   destruct ul as [ml|]; [rfinish H; apply fr_refl|].
   destruct (sc <? 0); [eapply IH; exact H|].
   destruct (term chain st nl el) as [[t st1]|?|] eqn:TE; cbn [bind] in H; try discriminate H.
-  pose proof (T _ _ _ _ _ _ TE) as E1.
+  pose proof (T _ _ _ _ _ _ CN TE) as E1.
   destruct t; [rfinish H; exact E1|]. apply IH in H. eapply fr_trans; eassumption.
 Qed.
 
@@ -422,11 +518,11 @@ Proof.
   unfold r_paragraph. intros H.
   match type of H with bind ?m _ = _ => destruct m as [[[nl u] st1]|?|] eqn:PS end; cbn [bind] in H; try discriminate H.
   pose proof (para_scan_bounds _ _ _ _ _ _ _ _ _ _ PS) as (P1 & P2 & _). cbn [b_lineMax st_parent] in P2.
-  apply (para_scan_fr term T) in PS. apply (fr_parent_l st _ nm_paragraph) in PS.
+  apply (para_scan_fr term T nm_paragraph ltac:(discriminate)) in PS. apply (fr_parent_l st _ nm_paragraph) in PS.
   rstep H. rfinish H. split; [reflexivity|]. intros (Q0 & Q1 & Q2 & Q3 & HTI).
   assert (P2' : nl <= b_lineMax st) by (apply P2; change (b_lineMax (st_parent st nm_paragraph)) with (b_lineMax st); lia).
   pose proof (fr_tokens _ _ PS) as ET. pose proof (fr_lineMax _ _ PS) as EL. pose proof (fr_TI _ _ PS HTI) as HT1.
-  split; [cbn; exact EL|]. split; [cbn; lia|]. split; [|exact HT1].
+  split; [cbn; exact EL|]. split; [cbn; lia|]. split; [|exact (conj HT1 (fr_se _ _ PS))].
   eexists. split; [unfold push_inline; change (b_tokens (st_parent ?x ?y)) with (b_tokens x); rewrite !bpush_tokens, <- !app_assoc; cbn [app]; change (b_tokens (st_line st1 ?l)) with (b_tokens st1); rewrite ET; reflexivity|].
   repeat constructor; unfold map_in; cbn; lia.
 Qed.
@@ -437,12 +533,12 @@ Proof.
   unfold r_lheading. intros H. rstep H. rstep H; [rfinish H; leaf_fail|].
   match type of H with bind ?m _ = _ => destruct m as [[[nl u] st1]|?|] eqn:PS end; cbn [bind] in H; try discriminate H.
   pose proof (para_scan_bounds _ _ _ _ _ _ _ _ _ _ PS) as (P1 & P2 & P3).
-  apply (para_scan_fr term T) in PS. apply (fr_parent_l st _ nm_paragraph) in PS.
+  apply (para_scan_fr term T nm_paragraph ltac:(discriminate)) in PS. apply (fr_parent_l st _ nm_paragraph) in PS.
   destruct u as [[marker level]|]; [|rfinish H; apply rule_c_fail; exact PS].
   assert (P3' : nl < el) by (apply P3; discriminate).
   rstep H. rfinish H. unfold rule_c. cbn [andb negb]. intros (Q0 & Q1 & Q2 & Q3 & HTI).
   pose proof (fr_tokens _ _ PS) as ET. pose proof (fr_lineMax _ _ PS) as EL. pose proof (fr_TI _ _ PS HTI) as HT1.
-  split; [cbn; exact EL|]. split; [cbn; lia|]. split; [|exact HT1].
+  split; [cbn; exact EL|]. split; [cbn; lia|]. split; [|exact (conj HT1 (fr_se _ _ PS))].
   eexists. split; [unfold push_inline; change (b_tokens (st_parent ?x ?y)) with (b_tokens x); rewrite !bpush_tokens, <- !app_assoc; cbn [app]; change (b_tokens (st_line st1 ?l)) with (b_tokens st1); rewrite ET; reflexivity|].
   repeat constructor; unfold map_in; cbn; lia.
 Qed.
@@ -457,7 +553,7 @@ Proof.
   rstep H. rstep H; [rfinish H; leaf_fail|].
   match type of H with bind ?m _ = _ => destruct m as [[[nl u] st1]|?|] eqn:PS end; cbn [bind] in H; try discriminate H.
   pose proof (para_scan_bounds _ _ _ _ _ _ _ _ _ _ PS) as (P1 & P2 & _). cbn [b_lineMax st_parent] in P2.
-  apply (para_scan_fr term T) in PS. apply (fr_parent_l st _ nm_reference) in PS.
+  apply (para_scan_fr term T nm_reference ltac:(discriminate)) in PS. apply (fr_parent_l st _ nm_reference) in PS.
   match type of H with bind ?m _ = _ => destruct m as [raw|?|] eqn:GL end; cbn [bind] in H; try discriminate H.
   cbv zeta in H.
   set (s := py_strip raw) in *. set (mx := len s) in *. set (fuel := S (length s)) in *.
@@ -486,7 +582,7 @@ Proof.
   1,2: specialize (LB2 TO).
   all: (split; [destruct (c_inline_defs cfg); cbn; exact EL|]).
   all: (split; [destruct (c_inline_defs cfg); cbn; lia|]).
-  all: (split; [|destruct (c_inline_defs cfg); exact HT1]).
+  all: (split; [|destruct (c_inline_defs cfg); exact (conj HT1 (fr_se _ _ PS))]).
   all: destruct (c_inline_defs cfg).
   all: try (apply gm_push1; [cbn; exact ET|]; unfold map_in; cbn; lia).
   all: exists []; rewrite app_nil_r; (split; [cbn; exact ET | constructor]).
@@ -529,7 +625,7 @@ Proof.
   destruct (negb (nl <? el)) eqn:NE; [rfinish H; repeat split; try lia; [apply gm_refl]|].
   rstep H. rstep H; [rfinish H; repeat split; try lia; [apply gm_refl]|].
   destruct (term nm_blockquote st nl el) as [[t st1]|?|] eqn:TE; cbn [bind] in H; try discriminate H.
-  pose proof (T _ _ _ _ _ _ TE) as E1.
+  pose proof (T nm_blockquote _ _ _ _ _ ltac:(discriminate) TE) as E1.
   assert (F1 : forall hi, gm sl hi st st1) by (intros hi; exists []; rewrite app_nil_r; split; [apply fr_tokens, E1 | constructor]).
   destruct t; [rfinish H; split; [reflexivity|]; split; [lia|]; split; [apply F1 | apply fr_stb, E1]|].
   rstep H. destruct (py_strip x0) as [|c0 lt] eqn:LT; [rfinish H; split; [reflexivity|]; split; [lia|]; split; [apply F1 | apply fr_stb, E1]|].
@@ -556,7 +652,7 @@ Proof.
   destruct (negb (sl + 2 <? el)) eqn:NE; [rfinish H; split; [lia|]; split; [apply stb_refl|]; left; split; reflexivity|].
   rstep H. rstep H; [rfinish H; split; [lia|]; split; [apply stb_refl|]; left; split; reflexivity|].
   destruct (term nm_blockquote st (sl + 2) el) as [[t st1]|?|] eqn:TE; cbn [bind] in H; try discriminate H.
-  pose proof (T _ _ _ _ _ _ TE) as E1. pose proof (fr_tokens _ _ E1) as ET.
+  pose proof (T nm_blockquote _ _ _ _ _ ltac:(discriminate) TE) as E1. pose proof (fr_tokens _ _ E1) as ET.
   destruct t; [rfinish H; split; [lia|]; split; [apply fr_stb, E1|]; left; split; [reflexivity | exact ET]|].
   rstep H. destruct (py_strip x0) as [|c0 lt] eqn:LT; [rfinish H; split; [lia|]; split; [apply fr_stb, E1|]; left; split; [reflexivity | exact ET]|].
   rstep H. rstep H; [rfinish H; split; [lia|]; split; [apply fr_stb, E1|]; left; split; [reflexivity | exact ET]|].
@@ -603,12 +699,12 @@ Proof.
   assert (HT7 : TI st7) by (apply (stb_TI st); [repeat split; assumption | exact HTI]).
   destruct Cases as [[-> ET7]|(ph & rest & -> & ET7 & FR & LT)].
   - (* no body rows *)
-    split; [cbn; exact T5|]. split; [cbn; lia|]. split; [|exact HT7].
+    split; [cbn; exact T5|]. split; [cbn; lia|]. split; [|exact (conj HT7 (conj T1 T3))].
     unfold gm, st_line, st_parent. cbn -[set_map_at map_in app]. rewrite ET7, E6t.
     rewrite <- app_assoc. cbn [app]. unfold set_map_at. rewrite update_nth_app.
     eexists. split; [reflexivity|]. constructor; [unfold map_in; cbn; lia|].
     apply Forall_app. split; [exact FH|]. repeat constructor; unfold map_in; cbn; trivial.
-  - split; [cbn; exact T5|]. split; [cbn; lia|]. split; [|exact HT7].
+  - split; [cbn; exact T5|]. split; [cbn; lia|]. split; [|exact (conj HT7 (conj T1 T3))].
     unfold gm, st_line, st_parent. cbn -[set_map_at map_in app]. rewrite ET7.
     rewrite <- !app_assoc. cbn [app]. unfold set_map_at at 2. rewrite update_nth_app.
     rewrite E6t. rewrite <- !app_assoc. cbn [app]. unfold set_map_at. rewrite update_nth_app.
@@ -658,7 +754,7 @@ Proof.
     + rewrite K13, K14. exact SO1.
   - destruct lle; [injection H as <- <- <-; split7; first [lia | assumption | apply k5_refl | (intros; reflexivity)]|].
     destruct (term nm_blockquote st nl el) as [[t st1]|?|] eqn:TE; cbn [bind] in H; try discriminate H.
-    pose proof (T _ _ _ _ _ _ TE) as E1. pose proof (fr_k5 _ _ E1) as (K11 & K12 & K13 & K14 & K15).
+    pose proof (T nm_blockquote _ _ _ _ _ ltac:(discriminate) TE) as E1. pose proof (fr_k5 _ _ E1) as (K11 & K12 & K13 & K14 & K15).
     pose proof (fr_TI _ _ E1 HT) as HT1. pose proof (fr_lineMax _ _ E1) as LM1. pose proof (fr_sCount _ _ E1) as SC1.
     destruct t.
     + (* a terminator stops the quote here *)
@@ -686,7 +782,9 @@ Proof.
       * cbn. lia.
 Qed.
 
-Definition first_ok (st : bstate) (a : Z) : Prop := forall sc, tb (b_sCount st) a = Ok sc -> b_blkIndent st <= sc.
+Definition first_ok (st : bstate) (a : Z) : Prop :=
+  (exists p e, line_start st a = Ok p /\ tb (b_eMarks st) a = Ok e /\ e <= p /\ a < b_lineMax st)
+  \/ (forall sc, tb (b_sCount st) a = Ok sc -> b_blkIndent st <= sc).
 
 (* the contract of the nested tokenize *)
 Definition rec_c (rec : rec_t) : Prop := forall st a b st',
@@ -736,7 +834,7 @@ Proof.
   destruct (R _ _ _ _ RC Q0 ltac:(lia) ltac:(cbn; lia) HT3) as (C1 & C2 & C3 & HT6 & C5 & C6 & C7). cbn in C1, C2, C5, C6.
   assert (FO : first_ok (bpush (st3 <| b_blkIndent := 0 |>) [98; 108; 111; 99; 107; 113; 117; 111; 116; 101; 95; 111; 112; 101; 110] nm_blockquote 1
                               (fun t => map_tok sl 0 (set_markup t [62]))) sl).
-  { intros s0 E0. cbn in E0. rewrite SC3 in E0 by lia. cbn in E0. rewrite SC1 in E0. injection E0 as <-. cbn. lia. }
+  { right. intros s0 E0. cbn in E0. rewrite SC3 in E0 by lia. cbn in E0. rewrite SC1 in E0. injection E0 as <-. cbn. lia. }
   specialize (C7 FO).
   (* restoring the tables *)
   apply restore_tables_m in RT; [|exact Q0| |].
@@ -746,7 +844,7 @@ Proof.
   cbn in LM10, K102. unfold st_parent in K101. cbn -[set_map_at bpush app] in K101.
   split; [cbn; exact LM10|].
   split; [cbn; rewrite K102; lia|].
-  split; [|exact HT10].
+  split; [|split; [exact HT10|]; split; cbn; [rewrite K103 | rewrite K104]; cbn; [rewrite C5 | rewrite C6]; cbn; [rewrite K33 | rewrite K34]; cbn; assumption].
   cbn [b_line set]. rewrite K102. unfold gm. cbn [b_tokens set]. rewrite K101.
   destruct C3 as (seg & ES & FS).
   rewrite bpush_tokens, ES, bpush_tokens.
@@ -756,4 +854,485 @@ Proof.
   apply Forall_app. split; [exact FS|]. repeat constructor; unfold map_in; cbn; trivial.
 Qed.
 
+(* ---- list ---- *)
+Lemma list_items_m rec term (R : rec_c rec) (T : term_fr term) : forall fuel st isOrd mc sl el pam start tight pee nl tight' st',
+  list_items cfg fuel rec term st isOrd mc sl sl el pam start tight pee = Ok (nl, tight', st') ->
+  0 <= sl -> sl < el -> el <= b_lineMax st -> TI st -> b_line st = sl ->
+  (forall ls, line_start st sl = Ok ls -> ls < pam) ->
+  sl < nl <= b_lineMax st /\ b_line st' = nl /\ b_lineMax st' = b_lineMax st /\ TI st' /\ se st st' /\ gm sl nl st st'.
+Proof.
+  induction fuel as [|f IH]; intros st isOrd mc sl el pam start tight pee nl tight' st' H S0 S1 S2 HT BL PM; [discriminate H|].
+  cbn [list_items] in H.
+  assert (NE : negb (sl <? el) = false) by lia. rewrite NE in H.
+  destruct (tb (b_eMarks st) sl) as [mx|?|] eqn:Ee; cbn [bind] in H; try discriminate H.
+  destruct (tb (b_sCount st) sl) as [scn|?|] eqn:Esc; cbn [bind] in H; try discriminate H.
+  destruct (line_start st sl) as [ls|?|] eqn:LS; cbn [bind] in H; try discriminate H.
+  rstep H.
+  match type of H with bind ?m _ = _ => destruct m as [[contentStart offset]|?|] eqn:LB end; cbn [bind] in H; try discriminate H.
+  apply list_blanks_mono in LB. destruct LB as [LB1 LB2].
+  cbv zeta in H.
+  set (initial := scn + pam - ls) in *.
+  set (iam0 := if mx <=? contentStart then 1 else offset - initial) in *.
+  set (iam := if 4 <? iam0 then 1 else iam0) in *.
+  set (indent := initial + iam) in *.
+  match type of H with context [bpush st s_list_item_open s_li 1 ?f] => set (st1 := bpush st s_list_item_open s_li 1 f) in * end.
+  change (b_tShift st1) with (b_tShift st) in H. change (b_sCount st1) with (b_sCount st) in H.
+  change (b_bMarks st1) with (b_bMarks st) in H.
+  destruct (tb (b_tShift st) sl) as [oldTS|?|] eqn:Ets; cbn [bind] in H; try discriminate H.
+  rewrite Esc in H. cbn [bind] in H.
+  destruct (tb (b_bMarks st) sl) as [bms|?|] eqn:Ebm; cbn [bind] in H; try discriminate H.
+  destruct (tb_set (b_tShift st) sl (contentStart - bms)) as [ts'|?|] eqn:S1'; cbn [bind] in H; try discriminate H.
+  destruct (tb_set (b_sCount st) sl offset) as [sc'|?|] eqn:S2'; cbn [bind] in H; try discriminate H.
+  specialize (PM ls eq_refl).
+  assert (LSE : ls = bms + oldTS).
+  { unfold line_start in LS. rewrite Ebm, Ets in LS. cbn [bind] in LS. injection LS as <-. reflexivity. }
+  destruct (HT sl bms mx oldTS S0 Ebm Ee Ets) as (G1 & G2 & G3 & G4).
+  match type of H with context [st1 <| b_listIndent := ?a |> <| b_blkIndent := ?b |> <| b_tight := ?c |> <| b_tShift := ?d |> <| b_sCount := ?e |>] =>
+    set (st2 := st1 <| b_listIndent := a |> <| b_blkIndent := b |> <| b_tight := c |> <| b_tShift := d |> <| b_sCount := e |>) in * end.
+  assert (HT2 : TI st2).
+  { unfold TI, st2, st1. cbn. exact (TIp_set_ts _ _ _ _ _ _ _ HT S0 S1' ltac:(lia)). }
+  assert (L2 : b_lineMax st2 = b_lineMax st) by reflexivity.
+  assert (B2 : b_line st2 = sl) by exact BL.
+  assert (T2 : b_tokens st2 = b_tokens st1) by reflexivity.
+  destruct (tb_set_spec _ _ _ _ S1' S0) as (TS1 & _ & _). destruct (tb_set_spec _ _ _ _ S2' S0) as (SC1 & _ & _).
+  (* the item body *)
+  match type of H with bind ?m _ = _ => destruct m as [st3|?|] eqn:BODY end; cbn [bind] in H; try discriminate H.
+  assert (B3 : sl < b_line st3 <= b_lineMax st /\ b_lineMax st3 = b_lineMax st /\ TI st3 /\ se st st3 /\ gm sl (b_line st3) st2 st3).
+  { destruct (if mx <=? contentStart then is_empty st2 (sl + 1) else Ok false) as [e|?|] eqn:EE; cbn [bind] in BODY; try discriminate BODY.
+    destruct e.
+    - injection BODY as <-. change (b_line (st_line st2 (Z.min (b_line st + 2) el))) with (Z.min (b_line st + 2) el). rewrite BL.
+      split; [lia|]. split; [reflexivity|]. split; [exact HT2|]. split; [split; reflexivity|].
+      exists []. rewrite app_nil_r. split; [reflexivity | constructor].
+    - destruct (R _ _ _ _ BODY S0 S1 ltac:(rewrite L2; lia) HT2) as (C1 & C2 & C3 & C4 & C5 & C6 & C7).
+      assert (FO : first_ok st2 sl).
+      { destruct (mx <=? contentStart) eqn:MC.
+        - left. exists contentStart, mx. unfold line_start. unfold st2, st1. cbn. rewrite Ebm, TS1. cbn [bind].
+          split; [f_equal; lia|]. split; [exact Ee|]. split; lia.
+        - right. intros s0 E0. unfold st2, st1 in E0. cbn in E0. rewrite SC1 in E0. injection E0 as <-.
+          unfold st2, st1. cbn. unfold indent, iam, iam0. destruct (4 <? offset - initial) eqn:X; lia. }
+      specialize (C7 FO). rewrite L2 in *. split; [lia|]. split; [exact C1|]. split; [exact C4|]. split; [split; [exact C5 | exact C6]|]. exact C3. }
+  destruct B3 as (B31 & B32 & HT3 & SE3 & G3m).
+  rstep H.
+  destruct (tb_set (b_tShift st3) sl oldTS) as [ts''|?|] eqn:S3'; cbn [bind] in H; try discriminate H.
+  destruct (tb_set (b_sCount st3) sl scn) as [sc''|?|] eqn:S4'; cbn [bind] in H; try discriminate H.
+  match type of H with context [bpush ?s4 s_list_item_close s_li (-1) ?f] => set (st5 := bpush s4 s_list_item_close s_li (-1) f) in * end.
+  change (b_line st5) with (b_line st3) in H.
+  match type of H with context [st5 <| b_tokens := ?v |>] => set (st6 := st5 <| b_tokens := v |>) in * end.
+  assert (A6 : b_line st6 = b_line st3 /\ b_lineMax st6 = b_lineMax st /\ TI st6 /\ se st st6 /\ gm sl (b_line st3) st st6).
+  { split; [reflexivity|]. split; [exact B32|]. split.
+    { unfold TI, st6, st5. cbn. destruct SE3 as [E1 E2]. exact (TIp_set_ts _ _ _ _ _ _ _ HT3 S0 S3' G2). }
+    split; [exact SE3|].
+    destruct G3m as (seg3 & E3 & F3).
+    unfold gm, st6, st5. cbn -[set_map_at app]. rewrite E3, T2. unfold st1. rewrite bpush_tokens.
+    rewrite <- !app_assoc. cbn [app]. unfold set_map_at. rewrite update_nth_app.
+    eexists. split; [reflexivity|]. constructor; [unfold map_in; destruct isOrd; cbn; lia|].
+    apply Forall_app. split; [exact F3|]. repeat constructor; unfold map_in; cbn; trivial. }
+  destruct A6 as (A61 & A62 & A63 & A64 & A65).
+  assert (DONE6 : sl < b_line st3 <= b_lineMax st /\ b_line st6 = b_line st3 /\ b_lineMax st6 = b_lineMax st /\ TI st6 /\ se st st6 /\ gm sl (b_line st3) st st6)
+    by (split; [exact B31|]; split; [exact A61|]; split; [exact A62|]; split; [exact A63|]; split; [exact A64 | exact A65]).
+  destruct (el <=? b_line st3) eqn:EN; [injection H as <- <- <-; exact DONE6|].
+  rstep H. rstep H; [injection H as <- <- <-; exact DONE6|].
+  rstep H. rstep H; [injection H as <- <- <-; exact DONE6|].
+  destruct (term nm_list st6 (b_line st3) el) as [[t st7]|?|] eqn:TE; cbn [bind] in H; try discriminate H.
+  pose proof (T nm_list _ _ _ _ _ ltac:(discriminate) TE) as E7.
+  assert (DONE7 : sl < b_line st3 <= b_lineMax st /\ b_line st7 = b_line st3 /\ b_lineMax st7 = b_lineMax st /\ TI st7 /\ se st st7 /\ gm sl (b_line st3) st st7).
+  { split; [exact B31|]. split; [rewrite (fr_line _ _ E7); exact A61|]. split; [rewrite (fr_lineMax _ _ E7); exact A62|].
+    split; [exact (fr_TI _ _ E7 A63)|]. split; [exact (se_trans _ _ _ A64 (fr_se _ _ E7))|].
+    eapply gm_same_tokens; [exact A65 | exact (fr_tokens _ _ E7)]. }
+  destruct t; [injection H as <- <- <-; exact DONE7|].
+  match type of H with bind ?m _ = _ => destruct m as [pam'|?|] eqn:SK end; cbn [bind] in H; try discriminate H.
+  destruct (pam' <? 0) eqn:PN; [injection H as <- <- <-; exact DONE7|].
+  rstep H. rstep H. rstep H; [injection H as <- <- <-; exact DONE7|].
+  destruct DONE7 as (D1 & D2 & D3 & D4 & D5 & D6).
+  apply IH in H; try lia; try assumption.
+  - destruct H as (I1 & I2 & I3 & I4 & I5 & I6). rewrite D3 in *.
+    split; [lia|]. split; [exact I2|]. split; [exact I3|]. split; [exact I4|]. split; [exact (se_trans _ _ _ D5 I5)|].
+    eapply gm_trans; [eapply gm_weaken; [exact D6 | lia | lia]|]. eapply gm_weaken; [exact I6 | lia | lia].
+  - intros ls' LS'. destruct isOrd.
+    + destruct (skip_ordered_gt _ _ _ _ SK LS'); lia.
+    + destruct (skip_bullet_gt _ _ _ _ SK LS'); lia.
+Qed.
+
+Lemma r_list_c rec term (R : rec_c rec) (T : term_fr term) st sl el silent b st' :
+  r_list cfg rec term st sl el silent = Ok (b, st') -> rule_c st sl el silent b st'.
+Proof.
+  unfold r_list. intros H.
+  rstep H. rstep H; [rfinish H; leaf_fail|].
+  rstep H. rstep H; [rfinish H; leaf_fail|].
+  cbv zeta in H.
+  destruct (skip_ordered st sl) as [pamo|?|] eqn:SO; cbn [bind] in H; try discriminate H.
+  destruct (line_start st sl) as [start|?|] eqn:LS; cbn [bind] in H; try discriminate H.
+  match type of H with bind ?m _ = _ => destruct m as [sel|?|] eqn:SEL end; cbn [bind] in H; try discriminate H.
+  destruct sel as [[[isOrd pam] mv]|]; [|rfinish H; leaf_fail].
+  assert (PM : start < pam).
+  { destruct (0 <=? pamo) eqn:P0.
+    - match type of SEL with (if ?c then Ok None else _) = _ => destruct c end; [discriminate SEL|].
+      injection SEL as <- <- <-. destruct (skip_ordered_gt _ _ _ _ SO LS); lia.
+    - destruct (skip_bullet st sl) as [pamb|?|] eqn:SB; cbn [bind] in SEL; try discriminate SEL.
+      destruct (0 <=? pamb) eqn:P1; [|discriminate SEL]. injection SEL as <- <- <-.
+      destruct (skip_bullet_gt _ _ _ _ SB LS); lia. }
+  rstep H. rstep H; [rfinish H; leaf_fail|].
+  destruct (py_idx (b_src st) (pam - 1)) as [x2|?|] eqn:MC0; cbn [bind] in H; try discriminate H.
+  destruct silent; [rfinish H; leaf_fail|].
+  match type of H with bind ?m _ = _ => destruct m as [[[nextLine tight] st3]|?|] eqn:LI end; cbn [bind] in H; try discriminate H.
+  injection H as <- <-. unfold rule_c. cbn [andb negb]. intros (Q0 & Q1 & Q2 & Q3 & HTI).
+  match type of LI with list_items _ _ _ _ (st_parent ?s1 _) _ _ _ _ _ _ _ _ _ = _ => set (st1 := s1) in * end.
+  assert (E1 : exists ph, b_tokens st1 = b_tokens st ++ [ph]).
+  { unfold st1. destruct isOrd; rewrite bpush_tokens; eexists; reflexivity. }
+  destruct E1 as (ph & E1).
+  apply (list_items_m rec term R T) in LI; try assumption.
+  2: { unfold st1. destruct isOrd; cbn; lia. }
+  2: { unfold st1. destruct isOrd; exact HTI. }
+  2: { unfold st1. destruct isOrd; exact Q3. }
+  2: { intros ls LS'. assert (line_start st sl = Ok ls) by (unfold st1 in LS'; destruct isOrd; exact LS'). congruence. }
+  destruct LI as (I1 & I2 & I3 & I4 & I5 & I6).
+  assert (LM1 : b_lineMax (st_parent st1 nm_list) = b_lineMax st) by (unfold st1; destruct isOrd; reflexivity).
+  assert (SE1 : se st (st_parent st1 nm_list)) by (unfold st1; destruct isOrd; split; reflexivity).
+  rewrite LM1 in *.
+  destruct I6 as (seg & ES & FS). change (b_tokens (st_parent st1 nm_list)) with (b_tokens st1) in ES. rewrite E1 in ES.
+  match goal with |- step_ok st sl (if tight then ?A else ?B) => set (st5 := B); assert (G5 : step_ok st sl st5) end.
+  { unfold st5. split; [cbn; destruct isOrd; cbn; exact I3|]. split; [cbn; lia|].
+    split; [|split; [destruct isOrd; exact I4 | destruct isOrd; exact (se_trans _ _ _ SE1 I5)]].
+    unfold gm. cbn -[set_map_at app].
+    assert (ET : exists cl, b_tokens (if isOrd
+        then bpush st3 [111; 114; 100; 101; 114; 101; 100; 95; 108; 105; 115; 116; 95; 99; 108; 111; 115; 101] [111; 108] (-1) (fun t => set_markup t [x2])
+        else bpush st3 [98; 117; 108; 108; 101; 116; 95; 108; 105; 115; 116; 95; 99; 108; 111; 115; 101] [117; 108] (-1) (fun t => set_markup t [x2]))
+        = b_tokens st3 ++ [cl] /\ tmap cl = None).
+    { destruct isOrd; rewrite bpush_tokens; eexists; split; reflexivity. }
+    destruct ET as (cl & ET & MC). rewrite ET, ES. rewrite <- !app_assoc. cbn [app].
+    unfold set_map_at. rewrite update_nth_app.
+    eexists. split; [reflexivity|]. constructor; [unfold map_in; cbn; lia|].
+    apply Forall_app. split; [exact FS|]. constructor; [unfold map_in; rewrite MC; trivial | constructor]. }
+  destruct tight; [|exact G5].
+  destruct G5 as (G51 & G52 & (seg5 & E5 & F5) & G54 & G55).
+  split; [exact G51|]. split; [exact G52|]. split; [|split; [exact G54 | exact G55]].
+  unfold gm.
+  pose proof (mark_tight_mapeq (length (b_tokens st)) (S (length (b_tokens st5))) (b_tokens st5) (Z.of_nat (length (b_tokens st)) + 2)
+                (len (b_tokens st5) - 2) (b_level st5 + 2) ltac:(lia) ltac:(lia)) as ME.
+  rewrite E5 in ME at 1.
+  destruct (gm_reshape sl nextLine (b_tokens st) seg5 _ F5 ME) as (seg' & EX & FX).
+  exists seg'. split; [exact EX | exact FX].
+Qed.
+
 End Rules.
+
+(* ---- the tables of a fresh StateBlock satisfy the invariant ---- *)
+Definition P3 (src : str) (b e t : Z) : Prop := 0 <= b /\ 0 <= t /\ 0 <= e /\ forall p, b <= p < e -> py_idx src p <> Ok 10.
+
+Definition rowsP (src : str) (bM eM tS : list Z) : Prop :=
+  length eM = length bM /\ length tS = length bM
+  /\ forall i b e t, nth_error (rev bM) i = Some b -> nth_error (rev eM) i = Some e -> nth_error (rev tS) i = Some t -> P3 src b e t.
+
+Lemma nth_error_snoc {A} (l : list A) x i v : nth_error (l ++ [x]) i = Some v ->
+  (i < length l /\ nth_error l i = Some v)%nat \/ (i = length l /\ v = x).
+Proof.
+  intros H. destruct (Nat.lt_ge_cases i (length l)) as [L|G].
+  - left. rewrite nth_error_app1 in H by exact L. split; assumption.
+  - right. rewrite nth_error_app2 in H by exact G. destruct (i - length l)%nat as [|k] eqn:E.
+    + cbn in H. injection H as <-. split; [lia | reflexivity].
+    + cbn in H. destruct k; discriminate H.
+Qed.
+
+Lemma rowsP_cons src bM eM tS b e t : rowsP src bM eM tS -> P3 src b e t -> rowsP src (b :: bM) (e :: eM) (t :: tS).
+Proof.
+  intros (L1 & L2 & H) P. split; [cbn [length]; lia|]. split; [cbn [length]; lia|].
+  intros i b' e' t' Hb He Ht. cbn [rev] in Hb, He, Ht.
+  apply nth_error_snoc in Hb. apply nth_error_snoc in He. apply nth_error_snoc in Ht. rewrite !rev_length in *.
+  destruct Hb as [[Lb Hb]|[Lb ->]]; destruct He as [[Le He]|[Le ->]]; destruct Ht as [[Lt Ht]|[Lt ->]]; try lia.
+  - exact (H i b' e' t' Hb He Ht).
+  - exact P.
+Qed.
+
+Lemma is_space_not_lf c : is_space c = true -> c <> 10.
+Proof. intros H ->. vm_compute in H. discriminate H. Qed.
+
+Definition scanI (full : str) (r : scan) (pos : Z) : Prop :=
+  rowsP full (sc_bM r) (sc_eM r) (sc_tS r) /\ 0 <= sc_start r /\ 0 <= sc_indent r
+  /\ forall p, sc_start r <= p < pos -> py_idx full p <> Ok 10.
+
+Lemma scan_step_I full r pos c : scanI full r pos -> 0 <= pos -> py_idx full pos = Ok c ->
+  scanI full (scan_step (len full) r pos c) (pos + 1).
+Proof.
+  intros (R & S0 & I0 & F) Hp Ec. unfold scan_step.
+  destruct (negb (sc_found r) && is_space c) eqn:E.
+  - assert (Sp : is_space c = true) by (destruct (is_space c); [reflexivity | rewrite Bool.andb_false_r in E; discriminate E]).
+    pose proof (is_space_not_lf c Sp) as Nl.
+    split; [exact R|]. split; [exact S0|]. split; [cbn; lia|]. cbn [sc_start].
+    intros p Hpp. destruct (Z.eq_dec p pos) as [->|N]; [rewrite Ec; congruence | apply F; lia].
+  - destruct ((c =? 10) || (pos =? len full - 1)) eqn:E2.
+    + cbv zeta. split.
+      * cbn [sc_bM sc_eM sc_tS]. apply rowsP_cons; [exact R|].
+        unfold P3. repeat split; try lia; [destruct (c =? 10); lia|].
+        intros p Hpp. destruct (c =? 10) eqn:E3; [apply F; lia|].
+        destruct (Z.eq_dec p pos) as [->|N]; [rewrite Ec; intros X; injection X as ->; discriminate E3 | apply F; lia].
+      * cbn [sc_start sc_indent]. split; [destruct (c =? 10); lia|]. split; [lia|].
+        intros p Hpp. destruct (c =? 10); lia.
+    + assert (c <> 10) by lia.
+      split; [exact R|]. split; [exact S0|]. split; [exact I0|]. cbn [sc_start].
+      intros p Hpp. destruct (Z.eq_dec p pos) as [->|N]; [rewrite Ec; congruence | apply F; lia].
+Qed.
+
+Lemma scan_loop_I full : forall rest done r, full = done ++ rest -> scanI full r (len done) ->
+  scanI full (scan_loop (len full) r (len done) rest) (len full).
+Proof.
+  induction rest as [|c rest IH]; intros done r E H; cbn [scan_loop].
+  - rewrite E, app_nil_r. rewrite E, app_nil_r in H. exact H.
+  - replace (len done + 1) with (len (done ++ [c])) by (rewrite len_app; unfold len; cbn; lia).
+    apply IH; [rewrite <- app_assoc; exact E|].
+    replace (len (done ++ [c])) with (len done + 1) by (rewrite len_app; unfold len; cbn; lia).
+    apply scan_step_I; [exact H | apply len_nonneg|]. rewrite E. apply py_idx_app.
+Qed.
+
+Theorem state_init_TI src env toks : TI (state_init src env toks).
+Proof.
+  unfold TI, state_init. cbv zeta. cbn [b_src b_bMarks b_eMarks b_tShift].
+  set (r := scan_loop (len src) (mkScan [] [] [] [] false 0 0 0) 0 src).
+  assert (HI : scanI src r (len src)).
+  { unfold r. apply (scan_loop_I src src [] _ eq_refl). unfold scanI. cbn.
+    split; [split; [reflexivity|]; split; [reflexivity|]; intros i b e t Hb; destruct i; discriminate Hb|].
+    split; [lia|]. split; [lia|]. intros p Hp. lia. }
+  destruct HI as (R & S0 & I0 & F). pose proof (len_nonneg src) as Ln.
+  assert (R' : rowsP src (len src :: sc_bM r) (len src :: sc_eM r) (0 :: sc_tS r)).
+  { apply rowsP_cons; [exact R|]. unfold P3. repeat split; try lia. }
+  destruct R' as (_ & _ & H).
+  intros l b e t Hl Eb Ee Et. rewrite tb_nonneg in Eb, Ee, Et by lia.
+  destruct (nth_error (rev (len src :: sc_bM r)) (Z.to_nat l)) eqn:X1; [|discriminate Eb].
+  destruct (nth_error (rev (len src :: sc_eM r)) (Z.to_nat l)) eqn:X2; [|discriminate Ee].
+  destruct (nth_error (rev (0 :: sc_tS r)) (Z.to_nat l)) eqn:X3; [|discriminate Et].
+  injection Eb as <-. injection Ee as <-. injection Et as <-.
+  exact (H _ _ _ _ X1 X2 X3).
+Qed.
+
+(* ---- dispatch, terminator chains, the rule loop, the line loop ---- *)
+Section Loop.
+Context (cfg : bcfg) (rf cf : str -> str).
+
+(* the rules that may be called silently: code, lheading and paragraph have no silent mode (and
+   no "alt" entry in the rule table, so the Ruler never puts them into a terminator chain) *)
+Definition silent_capable (n : str) : Prop :=
+  str_eqb n nm_code = false /\ str_eqb n nm_lheading = false /\ str_eqb n nm_paragraph = false.
+Definition silent_terms : Prop := forall ch n, ch <> [] -> In n (c_term cfg ch) -> silent_capable n.
+
+Lemma apply_rule_c rec term (R : rec_c rec) (T : term_fr term) n st sl el silent b st' :
+  apply_rule cfg rf cf rec term n st sl el silent = Ok (b, st') ->
+  (silent = true -> silent_capable n) ->
+  rule_c st sl el silent b st' /\ (str_eqb n nm_paragraph = true -> silent = false -> b = true).
+Proof.
+  unfold apply_rule. intros H SC.
+  destruct (str_eqb n nm_table) eqn:N1.
+  { split; [eapply r_table_c; eassumption|]. intros X. apply str_eqb_eq in N1. subst n. discriminate X. }
+  destruct (str_eqb n nm_code) eqn:N2.
+  { destruct silent; [destruct (SC eq_refl) as (X & _); congruence|].
+    split; [eapply r_code_c; eassumption|]. intros X. apply str_eqb_eq in N2. subst n. discriminate X. }
+  destruct (str_eqb n nm_fence) eqn:N3.
+  { split; [eapply r_fence_c; eassumption|]. intros X. apply str_eqb_eq in N3. subst n. discriminate X. }
+  destruct (str_eqb n nm_blockquote) eqn:N4.
+  { split; [eapply r_blockquote_c; eassumption|]. intros X. apply str_eqb_eq in N4. subst n. discriminate X. }
+  destruct (str_eqb n nm_hr) eqn:N5.
+  { split; [eapply r_hr_c; eassumption|]. intros X. apply str_eqb_eq in N5. subst n. discriminate X. }
+  destruct (str_eqb n nm_list) eqn:N6.
+  { split; [eapply r_list_c; eassumption|]. intros X. apply str_eqb_eq in N6. subst n. discriminate X. }
+  destruct (str_eqb n nm_reference) eqn:N7.
+  { split; [eapply r_reference_c; eassumption|]. intros X. apply str_eqb_eq in N7. subst n. discriminate X. }
+  destruct (str_eqb n nm_html_block) eqn:N8.
+  { split; [eapply r_html_block_c; eassumption|]. intros X. apply str_eqb_eq in N8. subst n. discriminate X. }
+  destruct (str_eqb n nm_heading) eqn:N9.
+  { split; [eapply r_heading_c; eassumption|]. intros X. apply str_eqb_eq in N9. subst n. discriminate X. }
+  destruct (str_eqb n nm_lheading) eqn:N10.
+  { destruct silent; [destruct (SC eq_refl) as (_ & X & _); congruence|].
+    split; [eapply r_lheading_c; eassumption|]. intros X. apply str_eqb_eq in N10. subst n. discriminate X. }
+  destruct (str_eqb n nm_paragraph) eqn:N11.
+  { destruct silent; [destruct (SC eq_refl) as (_ & _ & X); congruence|].
+    destruct (r_paragraph_c term T _ _ _ _ _ H) as [-> P]. split; [exact P | reflexivity]. }
+  rfinish H. split; [apply rule_c_fail, fr_refl | discriminate].
+Qed.
+
+Lemma no_rec_c : rec_c no_rec.
+Proof. intros st a b st' H. discriminate H. Qed.
+Lemma no_term_fr : term_fr no_term.
+Proof. intros ch s a b r s' _ H. discriminate H. Qed.
+
+Lemma run_chain_fr : forall names st l el b st', (forall n, In n names -> silent_capable n) ->
+  run_chain cfg rf cf names st l el = Ok (b, st') -> fr st st'.
+Proof.
+  induction names as [|n names IH]; intros st l el b st' SC H; cbn [run_chain] in H; [rfinish H; apply fr_refl|].
+  destruct (apply_rule cfg rf cf no_rec no_term n st l el true) as [[r s1]|?|] eqn:AR; cbn [bind] in H; try discriminate H.
+  destruct (apply_rule_c no_rec no_term no_rec_c no_term_fr _ _ _ _ _ _ _ AR (fun _ => SC n (or_introl eq_refl))) as [C _].
+  unfold rule_c in C. rewrite Bool.andb_false_r in C.
+  destruct r; [rfinish H; exact C|]. eapply fr_trans; [exact C|]. eapply IH; [|exact H]. intros m Hm. apply SC. right. exact Hm.
+Qed.
+
+Lemma terminated_fr (ST : silent_terms) : term_fr (terminated cfg rf cf).
+Proof. intros ch s a b r s' CN H. unfold terminated in H. eapply run_chain_fr; [|exact H]. intros n Hn. exact (ST ch n CN Hn). Qed.
+
+Lemma pre_fr st st1 sl el : fr st st1 -> pre st sl el -> pre st1 sl el.
+Proof.
+  intros F (P0 & P1 & P2 & P3 & HT). split; [exact P0|]. split; [exact P1|].
+  split; [rewrite (fr_lineMax _ _ F); exact P2|]. split; [rewrite (fr_line _ _ F); exact P3|].
+  exact (fr_TI _ _ F HT).
+Qed.
+
+Lemma step_ok_fr st st1 sl st' : fr st st1 -> step_ok st1 sl st' -> step_ok st sl st'.
+Proof.
+  intros F (A & B & C & D & E). rewrite (fr_lineMax _ _ F) in *.
+  split; [exact A|]. split; [exact B|]. split; [eapply gm_same_tokens_l; [exact C | symmetry; apply fr_tokens, F]|].
+  split; [exact D|]. exact (se_trans _ _ _ (fr_se _ _ F) E).
+Qed.
+
+Lemma try_rules_m rec (R : rec_c rec) (ST : silent_terms) : forall names st sl el st',
+  try_rules cfg rf cf rec names st sl el = Ok st' -> pre st sl el -> mem_str nm_paragraph names = true ->
+  step_ok st sl st'.
+Proof.
+  induction names as [|n names IH]; intros st sl el st' H P M; [discriminate M|].
+  cbn [try_rules] in H.
+  destruct (apply_rule cfg rf cf rec (terminated cfg rf cf) n st sl el false) as [[r s1]|?|] eqn:AR; cbn [bind] in H; try discriminate H.
+  destruct (apply_rule_c rec _ R (terminated_fr ST) _ _ _ _ _ _ _ AR ltac:(discriminate)) as [C PB].
+  destruct r.
+  - rfinish H. unfold rule_c in C. cbn [andb negb] in C. exact (C P).
+  - unfold rule_c in C. cbn [andb] in C.
+    cbn [mem_str existsb] in M. destruct (str_eqb nm_paragraph n) eqn:E.
+    + apply str_eqb_eq in E. subst n. specialize (PB (str_eqb_refl _) eq_refl). discriminate PB.
+    + cbn [orb] in M. eapply step_ok_fr; [exact C|]. eapply IH; [exact H | eapply pre_fr; eassumption | exact M].
+Qed.
+
+Lemma skip_empty_spec : forall fuel st a, a <= skip_empty_lines fuel st a
+  /\ (a <= b_lineMax st -> skip_empty_lines fuel st a <= b_lineMax st).
+Proof.
+  induction fuel as [|f IH]; intros st a; cbn [skip_empty_lines]; [lia|].
+  destruct (negb (a <? b_lineMax st)) eqn:E; [lia|].
+  destruct (IH st (a + 1)) as [A B].
+  destruct (is_empty st a) as [[|]|?|]; lia.
+Qed.
+
+Lemma skip_empty_progress fuel st a p e : line_start st a = Ok p -> tb (b_eMarks st) a = Ok e -> e <= p -> a < b_lineMax st ->
+  a < skip_empty_lines (S fuel) st a.
+Proof.
+  intros L E Le Lt. cbn [skip_empty_lines]. assert (X : negb (a <? b_lineMax st) = false) by lia. rewrite X.
+  unfold is_empty. rewrite L, E. cbn [bind]. assert (Y : (e <=? p) = true) by lia. rewrite Y.
+  destruct (skip_empty_spec fuel st (a + 1)) as [A _]. lia.
+Qed.
+
+Lemma tok_loop_m rec (R : rec_c rec) (ST : silent_terms) (PA : mem_str nm_paragraph (c_rules cfg) = true) :
+  forall fuel st line el hel st',
+  tok_loop cfg rf cf fuel rec st line el hel = Ok st' ->
+  0 <= line -> line <= b_lineMax st -> el <= b_lineMax st -> TI st -> (line < el \/ b_line st = line) ->
+  b_lineMax st' = b_lineMax st /\ TI st' /\ se st st' /\ line <= b_line st' <= b_lineMax st
+  /\ gm line (b_line st') st st' /\ (line < el -> first_ok st line -> line < b_line st').
+Proof.
+  induction fuel as [|f IH]; intros st line el hel st' H L0 L1 L2 HT LB; [discriminate H|].
+  cbn [tok_loop] in H.
+  destruct (negb (line <? el)) eqn:NE.
+  { rfinish H. assert (b_line st' = line) by (destruct LB; [lia | assumption]).
+    split; [reflexivity|]. split; [exact HT|]. split; [apply se_refl|]. split; [lia|]. split; [apply gm_refl | lia]. }
+  cbv zeta in H.
+  set (line1 := skip_empty_lines (S (Z.to_nat (b_lineMax st))) st line) in *.
+  destruct (skip_empty_spec (S (Z.to_nat (b_lineMax st))) st line) as [E1 E2]. specialize (E2 L1). fold line1 in E1, E2.
+  assert (FOP : first_ok st line -> line < line1 \/ (line1 = line /\ forall sc, tb (b_sCount st) line = Ok sc -> b_blkIndent st <= sc)).
+  { intros [(p & e & A & B & C & D)|F]; [left; unfold line1; eapply skip_empty_progress; eassumption|].
+    destruct (Z.eq_dec line1 line); [right; split; assumption | left; lia]. }
+  assert (GR : forall hi s, b_tokens s = b_tokens st -> gm line hi st s) by (intros hi s E; exists []; rewrite app_nil_r; split; [exact E | constructor]).
+  destruct (el <=? line1) eqn:EL.
+  { rfinish H. split; [reflexivity|]. split; [exact HT|]. split; [split; reflexivity|]. cbn [b_line st_line set].
+    split; [lia|]. split; [apply GR; reflexivity | lia]. }
+  change (b_sCount (st_line st line1)) with (b_sCount st) in H.
+  destruct (tb (b_sCount st) line1) as [sc|?|] eqn:Esc; cbn [bind] in H; try discriminate H.
+  change (b_blkIndent (st_line st line1)) with (b_blkIndent st) in H.
+  destruct (sc <? b_blkIndent st) eqn:SB.
+  { rfinish H. split; [reflexivity|]. split; [exact HT|]. split; [split; reflexivity|]. cbn [b_line st_line set].
+    split; [lia|]. split; [apply GR; reflexivity|]. intros _ FO. destruct (FOP FO) as [X|[X Y]]; [exact X|].
+    rewrite X in Esc. specialize (Y _ Esc). lia. }
+  destruct (c_maxNesting cfg <=? b_level (st_line st line1)).
+  { rfinish H. split; [reflexivity|]. split; [exact HT|]. split; [split; reflexivity|]. cbn [b_line st_line set].
+    split; [lia|]. split; [apply GR; reflexivity | lia]. }
+  destruct (try_rules cfg rf cf rec (c_rules cfg) (st_line st line1) line1 el) as [st2|?|] eqn:TR; cbn [bind] in H; try discriminate H.
+  apply (try_rules_m rec R ST) in TR; [| |exact PA].
+  2: { split; [lia|]. split; [lia|]. split; [exact L2|]. split; [reflexivity | exact HT]. }
+  destruct TR as (A1 & A2 & A3 & A4 & A5). cbn [b_lineMax st_line set] in A1, A2.
+  set (st3 := st2 <| b_tight := negb hel |>) in *.
+  change (b_line st3) with (b_line st2) in H.
+  rstep H.
+  match type of H with bind ?m _ = _ => destruct m as [e2|?|] eqn:E2' end; cbn [bind] in H; try discriminate H.
+  assert (G13 : gm line (b_line st2) st st3).
+  { eapply gm_weaken; [|exact E1|apply Z.le_refl]. destruct A3 as (sg & ES & FS). exists sg. split; [exact ES | exact FS]. }
+  destruct e2.
+  - assert (LT2 : b_line st2 < el) by (destruct (b_line st2 <? el) eqn:X; [lia | discriminate E2']).
+    apply IH in H; try lia.
+    + destruct H as (I1 & I2 & I3 & I4 & I5 & I6). cbn [b_lineMax st_line set] in *. change (b_lineMax st3) with (b_lineMax st2) in *.
+      rewrite A1 in *. split; [exact I1|]. split; [exact I2|]. split; [exact (se_trans _ _ _ A5 I3)|]. split; [lia|].
+      split; [|lia].
+      eapply gm_trans; [eapply gm_weaken; [exact G13 | lia | lia]|].
+      eapply gm_weaken; [exact I5 | lia | lia].
+    + cbn. change (b_lineMax st3) with (b_lineMax st2). lia.
+    + cbn. change (b_lineMax st3) with (b_lineMax st2). lia.
+    + exact A4.
+    + right. reflexivity.
+  - apply IH in H; try lia.
+    + destruct H as (I1 & I2 & I3 & I4 & I5 & I6). change (b_lineMax st3) with (b_lineMax st2) in *.
+      rewrite A1 in *. split; [exact I1|]. split; [exact I2|]. split; [exact (se_trans _ _ _ A5 I3)|]. split; [lia|].
+      split; [|lia].
+      eapply gm_trans; [eapply gm_weaken; [exact G13 | lia | lia]|].
+      eapply gm_weaken; [exact I5 | lia | lia].
+    + change (b_lineMax st3) with (b_lineMax st2). lia.
+    + change (b_lineMax st3) with (b_lineMax st2). lia.
+    + exact A4.
+    + right. reflexivity.
+Qed.
+
+Lemma tokenize_rec_c (ST : silent_terms) (PA : mem_str nm_paragraph (c_rules cfg) = true) :
+  forall d, rec_c (tokenize cfg rf cf d).
+Proof.
+  induction d as [|d IH]; intros st a b st' H A0 AB BL HT; [discriminate H|].
+  cbn [tokenize] in H.
+  apply (tok_loop_m _ IH ST PA) in H; try lia; try assumption.
+  destruct H as (I1 & I2 & (I31 & I32) & I4 & I5 & I6).
+  split; [exact I1|]. split; [exact I4|]. split; [exact I5|]. split; [exact I2|]. split; [exact I31|]. split; [exact I32|].
+  intros FO. exact (I6 AB FO).
+Qed.
+
+(* the whole block parser: every appended token carries a map inside [0, lineMax), non-empty;
+   the cursor ends within the line table; tables keep their invariant *)
+Theorem block_parse_maps (ST : silent_terms) (PA : mem_str nm_paragraph (c_rules cfg) = true) src env toks st' :
+  block_parse cfg rf cf src env toks = Ok st' ->
+  let n := b_lineMax (state_init src env toks) in
+  b_lineMax st' = n /\ 0 <= b_line st' <= n
+  /\ exists seg, b_tokens st' = toks ++ seg /\ Forall (map_in 0 n) seg.
+Proof.
+  unfold block_parse. intros H. cbv zeta.
+  pose proof (state_init_TI src env toks) as HT.
+  destruct (state_init_tables src env toks) as (_ & _ & _ & _ & _ & LM & _). cbv zeta in LM.
+  assert (B0 : b_line (state_init src env toks) = 0) by reflexivity.
+  assert (T0 : b_tokens (state_init src env toks) = toks) by reflexivity.
+  destruct src as [|c src0]; [injection H as <-; split; [reflexivity|]; split; [rewrite B0; lia|]; exists []; rewrite app_nil_r; split; [exact T0 | constructor]|].
+  set (st0 := state_init (c :: src0) env toks) in *. rewrite B0 in H.
+  destruct (Z.eq_dec (b_lineMax st0) 0) as [Z0|NZ].
+  - (* no line recorded: the loop returns at once *)
+    rewrite Z0 in H. cbn [tokenize Z.to_nat Z.sub tok_loop] in H. change (negb (0 <? 0)) with true in H. cbv iota in H. injection H as <-.
+    split; [reflexivity|]. split; [rewrite B0; lia|]. exists []. rewrite app_nil_r. split; [exact T0 | constructor].
+  - destruct (tokenize_rec_c ST PA _ _ _ _ _ H ltac:(lia) ltac:(lia) ltac:(lia) HT) as (C1 & C2 & C3 & _).
+    split; [exact C1|]. split; [lia|]. destruct C3 as (seg & ES & FS). exists seg. rewrite T0 in ES. split; [exact ES|].
+    eapply Forall_impl; [|exact FS]. intros t Ht. eapply map_in_weaken; [exact Ht | lia | lia].
+Qed.
+
+End Loop.
+
+(* a configuration taken from a Ruler: a rule is in a named terminator chain only if the chain is in
+   its alt list; code, lheading and paragraph have empty alt lists in the rule table *)
+From MD Require Import Model.Ruler.
+Definition no_silent_mode (n : str) : bool := str_eqb n nm_code || str_eqb n nm_lheading || str_eqb n nm_paragraph.
+Definition alts_ok (rs : list (@rule str)) : bool :=
+  forallb (fun r => if no_silent_mode (rfn r) then match ralt r with [] => true | _ => false end else true) rs.
+
+Theorem ruler_cfg_silent_terms (rs : list (@rule str)) code mn html defs :
+  alts_ok rs = true -> silent_terms (mkBCfg (compile_chain rs []) (compile_chain rs) code mn html defs).
+Proof.
+  intros A ch n CN H. cbn [c_term] in H. unfold compile_chain in H. apply in_map_iff in H.
+  destruct H as (r & <- & I). apply filter_In in I. destruct I as [I C].
+  apply Bool.andb_true_iff in C. destruct C as [_ C].
+  unfold alts_ok in A. rewrite forallb_forall in A. specialize (A r I).
+  unfold in_chain in C. destruct ch as [|c0 ch]; [contradiction CN; reflexivity|].
+  unfold silent_capable. unfold no_silent_mode in A.
+  destruct (str_eqb (rfn r) nm_code); [destruct (ralt r); [discriminate C | discriminate A]|].
+  destruct (str_eqb (rfn r) nm_lheading); [destruct (ralt r); [discriminate C | discriminate A]|].
+  destruct (str_eqb (rfn r) nm_paragraph); [destruct (ralt r); [discriminate C | discriminate A]|].
+  repeat split.
+Qed.
